@@ -90,8 +90,23 @@ def make_frames(sd):
     return frames
 
 
+def canonical_process_state():
+    """Every behaviour and every reference run starts from the same process-global state: lmfit already imported
+    (the first solve_stress(method='lsq') of a process imports it) and numpy's error state as `import forsys`
+    leaves it (all='raise'; parts of forsys use FloatingPointError for control flow). This keeps runs independent
+    of which worker process served which case. (A reported effect of the lmfit import on numpy's error state
+    could not be reproduced here — the state stays 'raise' after the first lsq solve with lmfit 1.3.4 — it would be
+    process history, not object history, and is outside what this check drives.)"""
+    try:
+        import lmfit  # noqa: F401
+    except Exception:
+        pass
+    np.seterr(all="raise")
+
+
 def new_session(sd):
     import forsys as fs
+    canonical_process_state()
     frames = make_frames(sd)
     return fs.ForSys(frames, cm=False), frames
 
